@@ -392,7 +392,8 @@ class DistSystem:
             cond = np.linalg.cond(P) if np.isfinite(P).all() else np.inf
             if ok and cond < 1e3:
                 sc = frac.template_scores(X, T, P, picks)
-                out = [(sc, np.ones(sc.shape, bool), None, None)]
+                # a score is 10 - (mean squared distance): its rounding error scales with max(10, distance), not with the score itself
+                out = [(sc, np.ones(sc.shape, bool), max(10.0, float(np.max(np.abs(sc - 10.0)))), None)]
             else:
                 out = None
         elif f == 'ttacc':
